@@ -12,6 +12,6 @@ EmptyItemLeaves == {"P", "Code", "EI"}
 ListQuote == {"BL"}
 EmptyQuoteLeaves == {"H1", "H2", "P", "EQ"}
 QuoteLeaves == {"P", "Code"}
-HtmlLeaves == {"P", "Html"}
+HtmlLeaves == {"P", "Html", "H1"}
 QuoteConts == {"BL", "Q"}
 =============================================================================
